@@ -248,18 +248,31 @@ func (q *qpeerConn) loseOutstanding() []qpeerPacket {
 	return q.sent[start:]
 }
 
-// advanceToPTO sleeps (fake time) until the conn's PTO timer; false if it is not armed.
+// advanceToPTO advances fake time until a PTO has fired: if no loss-detection
+// timer is pending a PING is sent first (so that something ack-eliciting is in
+// flight); a pending time-threshold loss timer is run through on the way.
+// Everything the conn sends meanwhile is drained into q.sent.
 func (q *qpeerConn) advanceToPTO() bool {
-	var armed bool
-	var when time.Time
-	q.tc.conn.runOnLoop(q.t.Context(), func(now time.Time, c *Conn) {
-		armed = c.loss.ptoTimerArmed
-		when = c.loss.timer
-	})
-	if !armed || when.IsZero() {
-		return false
+	for i := 0; i < 4; i++ {
+		var armed bool
+		var when time.Time
+		if err := q.tc.conn.runOnLoop(q.t.Context(), func(now time.Time, c *Conn) {
+			armed = c.loss.ptoTimerArmed
+			when = c.loss.timer
+		}); err != nil {
+			return false
+		}
+		if when.IsZero() {
+			q.tc.conn.ping(appDataSpace)
+			q.drain()
+			continue
+		}
+		time.Sleep(time.Until(when))
+		synctest.Wait()
+		q.drain()
+		if armed {
+			return true
+		}
 	}
-	time.Sleep(time.Until(when))
-	synctest.Wait()
-	return true
+	return false
 }
